@@ -125,7 +125,7 @@ func FreeRunMain(id string, n int) {
 	fmt.Println("freerun done")
 }
 
-var reRaceFrame = regexp.MustCompile(`(?m)^\s+/repo/([a-z_]+\.go):(\d+)`)
+var reRaceFrame = regexp.MustCompile(`(?m)^\s+pgregory\.net/rapid\.[^\n]*\n\s+\S*/([a-z_0-9]+\.go):(\d+)`)
 
 // freeRunUnit executes the prebuilt -race binary (VERIF_RACE_BIN, built by checks/run.sh without r3/r4).
 func freeRunUnit(id string, n int) Unit {
